@@ -69,6 +69,7 @@ Logged ==
   \/ Is("Wal") /\ \E t \in Tasks : task[t].fb = Ln.b /\ task[t].fe = Ln.e /\ WalWrite(t, FALSE)
   \/ Is("WalFault") /\ Ln.at = "write" /\ \E t \in Tasks : task[t].fb = Ln.b /\ task[t].fe = Ln.e /\ WalWrite(t, TRUE)
   \/ Is("WalFault") /\ Ln.at = "open" /\ \E t \in Tasks : task[t].fb = Ln.b /\ task[t].fe = Ln.e /\ WalOpen(t, TRUE)
+  \/ Is("Reg") /\ Ln.x = Len(xh) + 1 /\ DRegister(Ln.d, Ln.h)
   \/ Is("ExpB") /\ Ln.x = Len(xh) + 1 /\ DExpectBegin(Ln.d, Ln.b, Ln.ty, Ln.inc, Ln.exc, Ln.tmo >= 0)
   \/ Is("ExpE") /\ task[DT(Ln.d)].e = Ln.x /\ Ln.err = "" /\ DExpectEnd(Ln.d, FALSE) /\ xh[Ln.x].e = Ln.e
   \/ Is("ExpE") /\ task[DT(Ln.d)].e = Ln.x /\ Ln.err = "Timeout" /\ DExpectEnd(Ln.d, TRUE)
